@@ -59,7 +59,12 @@ func rulePending(c *Ctx) {
 	c.site(1)
 	c.check(len(m.take) >= 1 && len(m.problems) == 0, "midix.MIDIWriter|take-pending", pos, "midix.MIDIWriter", "a method returns the pending delta and clears it ("+strings.Join(roleNames(m.take), ",")+")", "no MIDIWriter method returns the pending delta and resets it to 0 any more: rests are counted twice or never "+strings.Join(m.problems, "; "))
 	c.site(1)
-	c.check(len(m.accum) >= 1, "midix.MIDIWriter|add-pending", pos, "midix.MIDIWriter", "a method adds its argument to the pending delta ("+strings.Join(roleNames(m.accum), ",")+")", "no MIDIWriter method adds its argument to the pending delta any more (pending += t)")
+	// pending += ticks, in a helper of its own or written out in Rest
+	restInline := false
+	if rest := c.fn("midix", "MIDIWriter.Rest"); rest != nil && m.pending != "" {
+		restInline = m.restAccumulatesInline(rest)
+	}
+	c.check(len(m.accum) >= 1 || restInline, "midix.MIDIWriter|add-pending", pos, "midix.MIDIWriter", "the pending delta grows by the ticks of a rest ("+strings.Join(roleNames(m.accum), ",")+")", "no MIDIWriter method adds its argument to the pending delta any more (pending += t)")
 	roots := m.exportedMethods()
 	if nw := c.fn("midix", "NewWriter"); nw != nil {
 		roots = append(roots, nw)
@@ -78,6 +83,8 @@ func rulePending(c *Ctx) {
 			if good {
 				a := accs[0].call.Common().Args
 				good = m.convOfParam(lval{a[len(a)-1], accs[0].fn, accs[0].chain}, fn, 1) && !inLoopAnyLevel(linstr{accs[0].call, accs[0].chain})
+			} else if len(ems) == 0 && len(probs) == 0 && len(takes) == 0 && len(accs) == 0 {
+				good = m.restAccumulatesInline(fn)
 			}
 			c.check(good, name, c.pos(fn.Pos()), name, "emits nothing, adds ticks(value) to the pending delta", "Rest must emit no event and add exactly ticks(value) to the pending delta; it no longer does (rest time is lost, doubled or turned into events)")
 			continue
@@ -1595,4 +1602,41 @@ func ruleTrackCount(c *Ctx) {
 		problem = "the header's TimeFormat is not the writer's clock (header division and tick arithmetic disagree)"
 	}
 	c.check(problem == "", name, c.pos(fn.Pos()), name, "every track 0..Len()-1 serialised; division = clock", name+": "+problem)
+}
+
+
+// restAccumulatesInline: fn is a single block that stores pending + ticks(value parameter) into the pending field and nothing else.
+func (m *writerModel) restAccumulatesInline(fn *ssa.Function) bool {
+	if len(fn.Blocks) != 1 || len(fn.Params) < 2 {
+		return false
+	}
+	n, good := 0, false
+	allInstrs(fn, func(in ssa.Instruction) {
+		st, ok := in.(*ssa.Store)
+		if !ok {
+			return
+		}
+		n++
+		f, isField := isFieldOfRecv(fn, st.Addr)
+		if !isField || f != m.pending {
+			return
+		}
+		add, ok := st.Val.(*ssa.BinOp)
+		if !ok || add.Op != token.ADD {
+			return
+		}
+		for _, pair := range [][2]ssa.Value{{add.X, add.Y}, {add.Y, add.X}} {
+			ld, ok := pair[0].(*ssa.UnOp)
+			if !ok || ld.Op != token.MUL {
+				continue
+			}
+			if lf, ok := isFieldOfRecv(fn, ld.X); !ok || lf != m.pending {
+				continue
+			}
+			if m.convOfParam(lval{pair[1], fn, nil}, fn, 1) {
+				good = true
+			}
+		}
+	})
+	return n == 1 && good
 }
